@@ -507,15 +507,22 @@ func init() {
 	runners["C12"] = runC12
 }
 
-func c12Steps(dir string) []job.Step {
+var c12ListFmts = []string{"txt", "json", "csv", "md", "dot"}
+var c12DiffFmts = []string{"txt", "csv", "md", "dot"}
+
+func c12Steps(dir string) []job.Step { return c12StepsRot(dir, 0) }
+
+// c12StepsRot: the output formats rotate with the index of the damaged directory, so every formatter
+// sees its share of damaged inputs at no extra cost.
+func c12StepsRot(dir string, k int) []job.Step {
 	st := []job.Step{
-		{Kind: job.List, Dir: dir, Fmt: "txt", Loud: true},
-		{Kind: job.List, Dir: dir, Fmt: "txt", Exposure: true, Loud: true},
-		{Kind: job.Diff, Dir1: dir, Dir2: "orig", Fmt: "txt", Loud: true},
-		{Kind: job.List, Dir: dir, Fmt: "json", Stop: true, Loud: true},
+		{Kind: job.List, Dir: dir, Fmt: c12ListFmts[k%5], Loud: true},
+		{Kind: job.List, Dir: dir, Fmt: c12ListFmts[(k+2)%5], Exposure: true, Loud: true},
+		{Kind: job.Diff, Dir1: dir, Dir2: "orig", Fmt: c12DiffFmts[k%4], Loud: true},
+		{Kind: job.List, Dir: dir, Fmt: c12ListFmts[(k+1)%5], Stop: true, Loud: true},
 	}
 	if c12Full {
-		st = append(st, job.Step{Kind: job.Diff, Dir1: "orig", Dir2: dir, Fmt: "txt", Loud: true})
+		st = append(st, job.Step{Kind: job.Diff, Dir1: "orig", Dir2: dir, Fmt: c12DiffFmts[(k+1)%4], Loud: true})
 	}
 	return st
 }
@@ -636,7 +643,7 @@ func runC12(tier string, seed uint64) int {
 		batches = append(batches, batch{lo, hi})
 		lo = hi
 	}
-	mkRun := func(ms []c12Mutant) Run {
+	mkRun := func(ms []c12Mutant, b0 int) Run {
 		ctx := &ctxs[ms[0].ctx]
 		lay := canonicalLayout(len(ctx.docs))
 		fs := lay.fs("orig", ctx.docs)
@@ -644,7 +651,7 @@ func runC12(tier string, seed uint64) int {
 		for k := range ms {
 			dir := fmt.Sprintf("m%02d", k)
 			fs = append(fs, lay.fs(dir, ms[k].docs(ctx))...)
-			steps = append(steps, c12Steps(dir)...)
+			steps = append(steps, c12StepsRot(dir, b0+k)...)
 			if es := c12EvalStep(dir, ctx); es != nil {
 				steps = append(steps, *es)
 			}
@@ -659,9 +666,9 @@ func runC12(tier string, seed uint64) int {
 	parallel(len(batches), workers, func(bi int) {
 		b := batches[bi]
 		ms := muts[b.lo:b.hi]
-		var scan func(ms []c12Mutant, single bool)
-		scan = func(ms []c12Mutant, single bool) {
-			run := mkRun(ms)
+		var scan func(ms []c12Mutant, single bool, b0 int)
+		scan = func(ms []c12Mutant, single bool, b0 int) {
+			run := mkRun(ms, b0)
 			res := execute(&run)
 			cnt[bi][0]++
 			if res.Infra != "" {
@@ -691,7 +698,7 @@ func runC12(tier string, seed uint64) int {
 			// the process died or hung: isolate the mutant
 			if !single {
 				for k := range ms {
-					scan(ms[k:k+1], true)
+					scan(ms[k:k+1], true, b0+k)
 				}
 				return
 			}
@@ -702,7 +709,7 @@ func runC12(tier string, seed uint64) int {
 			st := c12Steps("m")[0]
 			hits[bi] = append(hits[bi], c12Hit{m: &ms[0], sig: s, what: what, step: &st})
 		}
-		scan(ms, false)
+		scan(ms, false, b.lo)
 	})
 	for bi := range batches {
 		if infras[bi] != "" {
@@ -944,12 +951,15 @@ func c12Witness(ctxs []c12Context, h *c12Hit, seed uint64, count int) *Replay {
 		var cli []string
 		switch h.step.Kind {
 		case job.List:
-			cli = []string{"list", "--dirpath", "m"}
+			cli = []string{"list", "--dirpath", "m", "-o", h.step.Fmt}
 			if h.step.Exposure {
 				cli = append(cli, "--exposure")
 			}
+			if h.step.Stop {
+				cli = append(cli, "--fail")
+			}
 		case job.Diff:
-			cli = []string{"diff", "--dir1", h.step.Dir1, "--dir2", h.step.Dir2}
+			cli = []string{"diff", "--dir1", h.step.Dir1, "--dir2", h.step.Dir2, "-o", h.step.Fmt}
 		case job.EvalAll:
 			if len(h.step.Queries) == 1 {
 				q := h.step.Queries[0]
